@@ -247,7 +247,7 @@ func (it *Interp) finishStage(st *Stage) {
 		if fork > 0 {
 			o.ForkID = fork
 			o.ForkIdx = i
-			o.Paths[fork] = &PathInfo{Cap: o.Cap, Stages: 0, Lead0: o.Lead}
+			o.Paths[fork] = &PathInfo{Cap: o.Cap, Stages: 0, Lead0: o.Lead, Idx: i}
 		}
 	}
 	if len(ss.outs) > 0 {
